@@ -306,6 +306,56 @@ def test_text_models(seed):
     return n
 
 
+def test_regex(seed):
+    """sx.symre against the real re module: same patterns, subject strings with pinned symbolic characters"""
+    import re
+    from sx import symre
+    rnd = random.Random(seed + 11)
+    pats = [r"%[0-9A-F]{2}", r"%[0-9A-F]+", r"[a-c]+", r"^a.*b$", r"(a|b)c", r"(\d+)-(\d+)", r"\s+", r"\w+@\w+\.com", r"a*?b", r"(?:ab)+", r"[^a-c]", r"x?y", r"(a)(b)?", r"\bfoo\b",
+            r"(?P<u>[a-z]+)=(?P<v>\d*)", r"a{2,3}", r"(ab|a)(c|bcd)", r"$", r"^", r"(.)\1", r"a(?=b)", r"a(?!b)", r"[A-Fa-f0-9]+", r".", r""]
+    alphabet = "abcAF%09 =-x@.\nfo"
+    n = 0
+    for it in range(40):
+        text = "".join(rnd.choice(alphabet) for _ in range(rnd.randrange(0, 8)))
+        if it % 4 == 0:
+            text = rnd.choice(["a+b%2Bc", "x%2bA", "foo bar", "ab=12", "user@host.com", "aaab", "12-34", "abcd", "aa"])
+        for p in pats:
+            c = Ctx([])
+            core.CTX = c
+            vs = [z3.Int("r%d" % i) for i in range(len(text))]
+            for v, ch in zip(vs, text):
+                c.assume(v == ord(ch))
+            sym = SymStr([SymChar(SymInt(v, ub=0x110000)) for v in vs])
+
+            def norm(x, model):
+                if x is None:
+                    return None
+                if isinstance(x, symre.SymMatch):
+                    return (x.span(), tuple(norm(g, model) for g in x.groups()))
+                if isinstance(x, re.Match):
+                    return (x.span(), x.groups())
+                if isinstance(x, (list, tuple)):
+                    return type(x)(norm(y, model) for y in x)
+                return _conc(x, model)
+            for name, args in (("match", ()), ("search", ()), ("fullmatch", ()), ("findall", ()), ("split", ()), ("sub", ("<\\g<0>>",)), ("sub", (lambda m_: m_.group(0).lower(),))):
+                try:
+                    if name == "sub":
+                        exp = re.sub(p, args[0], text)
+                        got = symre.sub(p, args[0], sym)
+                    else:
+                        exp = getattr(re, name)(p, text)
+                        got = getattr(symre, name)(p, sym)
+                except core.Unsupported:
+                    continue
+                assert c.check() == z3.sat
+                g = norm(got, c.solver.model())
+                e = norm(exp, None)
+                assert g == e, ("re.%s(%r, %r): model %r, python %r" % (name, p, text, g, e))
+                n += 1
+    core.CTX = None
+    return n
+
+
 def test_symsql(seed):
     """the symbolic SQL engine against the real sqlite3 library: the repository's store classes are driven through the same
     random operation sequences (concrete values) on both, incl. process deaths (connection abandoned without commit) and
@@ -447,6 +497,7 @@ def main():
         res["struct_hex_points"] = test_struct_hex(seed)
         res["rope_points"] = test_ropes(seed)
         res["text_model_points"] = test_text_models(seed)
+        res["regex_points"] = test_regex(seed)
         res["symsql_vs_sqlite_points"] = test_symsql(seed)
     except AssertionError as e:
         print("SELFTEST FAILED (intrinsic model differs from CPython): %s" % (e,))
